@@ -40,7 +40,7 @@ def repo_hook_commits():
 
 manifest = {
     "version": 1,
-    "setup_cmd": "cd /verif/harness && CARGO_NET_OFFLINE=true cargo build --release --offline --workspace",
+    "setup_cmd": "SETUP_PLACEHOLDER",
     "hooks": {
         "guard": "--cfg p2panda_p2panda_verif",
         "enable": "RUSTFLAGS='--cfg p2panda_p2panda_verif' via /verif/harness/.cargo/config.toml; harness crates depend on /repo crates by path, so every check rebuilds from the working tree",
@@ -96,6 +96,8 @@ for name, pids in engines.items():
     path, kind = kinds.get(name, ("harness/explorer", name))
     manifest["engines"].append({"name": name, "path": path, "serves_properties": pids, "kind_free_text": kind})
 
+crates = sorted({c["crate"] for c in checks.values()})
+manifest["setup_cmd"] = "cd /verif/harness && CARGO_NET_OFFLINE=true cargo build --release --offline " + " ".join(f"-p {c}" for c in crates)
 json.dump(manifest, open(os.path.join(ROOT, "MANIFEST.json"), "w"), indent=1)
 for pid, c in pending.items():
     if pid not in checks:
